@@ -2,6 +2,7 @@ CONSTANTS
   MaxSize = 13
   Prof <- ProfFault
   MathTable <- NoTable
+  GenBackend = "any"
 INIT GInit
 NEXT GNext
 INVARIANT Export
